@@ -1,11 +1,13 @@
 package model
 
 import (
+	"bytes"
 	"encoding/json"
 	"fmt"
 	"regexp"
 	"sort"
 	"strings"
+	"unicode/utf8"
 
 	"verifsim/shapes"
 )
@@ -51,6 +53,12 @@ func JSON(r *shapes.Rec) string {
 	b, err := json.Marshal(r)
 	if err != nil {
 		return "!unserialisable:" + err.Error()
+	}
+	// encoding/json writes a byte that is not valid UTF-8 as the escape \ufffd and the
+	// replacement character itself (what that byte has become after a round trip
+	// through a file) literally: one spelling for both
+	if bytes.Contains(b, []byte(`\ufffd`)) {
+		b = bytes.ReplaceAll(b, []byte(`\ufffd`), []byte("\uFFFD"))
 	}
 	return string(b)
 }
@@ -145,6 +153,11 @@ func (m *Model) Delete(lid int) { delete(m.Objs, lid) }
 func (m *Model) PrepProbe(path string, probe interface{}) interface{} {
 	c := m.Cons[path]
 	if s, ok := probe.(string); ok {
+		// values are compared the way the files hold them: through encoding/json
+		if !utf8.ValidString(s) {
+			b, _ := json.Marshal(s)
+			json.Unmarshal(b, &s)
+		}
 		if c.Upper {
 			s = Case(s, true)
 		}
